@@ -32,7 +32,9 @@ def st_case(draw):
     cfg = draw(fitgen.st_fit_cfg(st, models=["hertz_para", "hertz_cone", "sneddon_spher_approx"],
                                  methods=("leastsq",), plateau=True, tiny_ranges=True))
     if cfg["optimal_fit_edelta"]:
-        cfg["optimal_fit_num_samples"] = draw(st.integers(7, 40))
+        # (also more scan depths than the segment has points: the arrays still have the requested length)
+        cfg["optimal_fit_num_samples"] = draw(st.sampled_from([draw(st.integers(7, 40)), draw(st.integers(7, 40)),
+                                                               draw(st.integers(41, 160))]))
         # upper bound in the baseline region or +inf, lower bound is a don't-care
         hi = draw(st.one_of(st.floats(0.6, 1.0), st.just("inf")))
         cfg["range_frac"] = draw(st.sampled_from([[draw(st.floats(0.0, 0.5)), hi], [hi, draw(st.floats(0.0, 0.5))]]))
@@ -81,9 +83,12 @@ def check_case(case, ctx):
             xs = np.sort(x[seg])
             step = float(np.median(np.diff(xs))) if xs.size > 2 else 1e-9
             kw0["range_x"] = [kw["range_x"][0] + step * case["prior_sign"], kw["range_x"][1] - step * case["prior_sign"]]
-        with fitgen.catch():
-            idnt.fit_model(**kw0)
-        classes.append("prior_" + case["prior"])
+        if list(kw0["range_x"]) != list(kw["range_x"]):
+            # (a pause segment has one abscissa only: no sample step, the prior would be the request itself and
+            # the measured fit would rightly be skipped)
+            with fitgen.catch():
+                idnt.fit_model(**kw0)
+            classes.append("prior_" + case["prior"])
     with fitgen.MinimizeRecorder() as rec, fitgen.catch() as box:
         idnt.fit_model(**kw)
     if box["exc"] is not None:
